@@ -58,6 +58,13 @@ pub fn eval(ctx: &mut Context, line: &str) -> Result<QueryReply, QueryError> {
                 ctx.previous_result = Some(raw.clone());
             }
         }
+        // A time is shown broken down into years, days, hours..., but it
+        // is the numeric result of the expression all the same.
+        if let QueryReply::Duration(ref duration) = res {
+            if let Some(ref raw) = duration.raw.raw_value {
+                ctx.previous_result = Some(raw.clone());
+            }
+        }
     }
     Ok(res)
 }
